@@ -118,7 +118,7 @@ def capture_files(files, name, sm=False, gen=False, fresh=False):
     With gen=True the generated code is kept next to each cap (<id>.gen); cap.gen_path is set."""
     tool = capture_tool(sm)
     out = cache_dir('caps', repo_hash(), name + ('-sm' if sm else '') + ('-gen' if gen else ''))
-    key = file_hash(files) + repo_hash()
+    key = file_hash(files) + repo_hash() + file_hash([os.path.join(VERIF, 'tools', 'capture', 'src')])
     if fresh or not stamp_ok(out, key):
         for f in glob.glob(os.path.join(out, '*')):
             os.remove(f)
@@ -139,7 +139,7 @@ def capture_subpatterns(files, name):
     """Independent DFA of every subpattern (tools/capture subpats). Returns list of Cap (DFA only)."""
     tool = capture_tool()
     out = cache_dir('caps', repo_hash(), name + '-subpats')
-    key = file_hash(files) + repo_hash()
+    key = file_hash(files) + repo_hash() + file_hash([os.path.join(VERIF, 'tools', 'capture', 'src')])
     if not stamp_ok(out, key):
         for f in glob.glob(os.path.join(out, '*')):
             os.remove(f)
